@@ -340,12 +340,12 @@ Section Param.
           destruct (if has_key "policies" (VObj kvs0) then decide S2 relh2 (VObj kvs0) env s2
                     else evaluate S2 relh2 None (VObj kvs0) env s2) as [r2 t2].
           simpl in Hb, Hs. subst r2. destruct r1 as [r0|w|]; try (split; [reflexivity|exact Hs]).
-          destruct (s_broke _); [split; [reflexivity|exact Hs]|]. apply (IHc Hrest t1 t2 Hs).
+          cbv zeta. destruct (s_broke (set_step al a (pid_of (VObj kvs0)) r0)); [split; [reflexivity|exact Hs]|]. exact (IHc Hrest t1 t2 Hs (set_step al a (pid_of (VObj kvs0)) r0)).
         - apply IHk. intros kv Hkv. apply Hin. now right. }
       specialize (Hkvs kvs (fun kv H => H)).
-      match goal with
-      | H : match ?x, ?y with _ => _ end |- _ => destruct x as [xx|]; destruct y as [yy|]; try contradiction
-      end; [exact Hkvs|split; [reflexivity|exact Hr]].
+      match type of Hkvs with match ?x with _ => _ end => destruct x as [xx|] end;
+      match type of Hkvs with match ?y with _ => _ end => destruct y as [yy|] end; try contradiction;
+      [exact Hkvs|split; [reflexivity|exact Hr]].
   Qed.
 
   Theorem decide_sim ps env s1 s2 : R s1 s2 -> sim (decide S1 relh1 ps env s1) (decide S2 relh2 ps env s2).
